@@ -56,14 +56,19 @@ namespace rkcommon {
         {
           TASK_T t;
 
-          LocalTask(TASK_T &&fcn) : Task(1), t(std::forward<TASK_T>(fcn)) {}
+          LocalTask(TASK_T &&fcn) : Task(1), t(std::forward<TASK_T>(fcn))
+          {
+            // nobody waits for this task: let the scheduler release it once it
+            // is done with it (deleting it from inside ExecuteRange() would
+            // leave the scheduler with a dangling pointer)
+            m_DeleteWhenComplete = true;
+          }
 
           ~LocalTask() override = default;
 
           void ExecuteRange(enki::TaskSetPartition, uint32_t) override
           {
             t();
-            delete this;
           }
         };
 
